@@ -246,7 +246,8 @@ theorem getitem2_wf {a : Arr} {i0 i1 : Index} {v : Val} (hw : WF a) (h : getitem
       | ok a' =>
         rw [hg] at h
         exact arrayGet_wf (getArray_wf hw hg) h
-    · split at h
+    · unfold getitem2Rest at h
+      split at h
       · cases h
       · rename_i s hs
         have hws : WF s := subarrayKeep_wf hw hs
@@ -579,18 +580,24 @@ theorem firstBox_mem : ∀ {xs : List Arr} {b : List Tok}, firstBox xs = some b 
     · rename_i b0 hb; cases h; exact ⟨a, by simp, hb⟩
     · obtain ⟨x, hx, hb⟩ := firstBox_mem h; exact ⟨x, by simp [hx], hb⟩
 
+theorem head?_mem {α} {l : List α} {a : α} (h : l.head? = some a) : a ∈ l := by
+  cases l with
+  | nil => cases h
+  | cons x r => simp only [List.head?_cons, Option.some.injEq] at h; subst h; simp
+
 theorem concatenate_wf {xs : List Arr} {a' : Arr} (hw : ∀ a ∈ xs, WF a) (h : concatenate xs = .ok a') : WF a' := by
   unfold concatenate at h
   split at h
   · cases h
-  · rename_i f t
+  · rename_i f hhead
+    have hfm : f ∈ xs := head?_mem hhead
     split at h
     · cases h
     · rename_i hchk
       cases h
       have hall := concatCheck_ok hchk
       refine ⟨?_, ?_, ?_, ?_, ?_⟩
-      · refine foldl_insert_all (fun (c : List Tok) => c.length = totalLen (f :: t)) _ _ (mandCols_len _) ?_
+      · refine foldl_insert_all (fun (c : List Tok) => c.length = totalLen xs) _ _ (mandCols_len _) ?_
         intro p hp
         simp only [List.mem_filterMap, Option.map_eq_some_iff] at hp
         obtain ⟨q, _, c, hc, rfl⟩ := hp
@@ -600,7 +607,7 @@ theorem concatenate_wf {xs : List Arr} {a' : Arr} (hw : ∀ a ∈ xs, WF a) (h :
         obtain ⟨m, hm, rfl⟩ := hc
         exact concatBlock_len m _ (fun a ha => ⟨hw a ha, by rw [(hall a ha).2]; exact hm⟩)
       · intro hs
-        simpa using (hw f (by simp)).single hs
+        simpa using (hw f hfm).single hs
       · intro b hb
         obtain ⟨x, hx, hxb⟩ := firstBox_mem hb
         have := (hw x hx).box b hxb
@@ -622,7 +629,7 @@ theorem concatenate_wf {xs : List Arr} {a' : Arr} (hw : ∀ a ∈ xs, WF a) (h :
                 | none => rfl
                 | some b => exact ((hl a (by simp)).bonds b hb).1
               simp [totalLen] at ihr ⊢; omega
-          have hwf := concat_wf ((f :: t).map (fun a => a.bonds.getD ⟨a.n, []⟩)) (by
+          have hwf := concat_wf (xs.map (fun a => a.bonds.getD ⟨a.n, []⟩)) (by
             intro b hb
             simp only [List.mem_map] at hb
             obtain ⟨a, ha, rfl⟩ := hb
@@ -632,7 +639,7 @@ theorem concatenate_wf {xs : List Arr} {a' : Arr} (hw : ∀ a ∈ xs, WF a) (h :
               have := (hw a ha).bonds b0 hab
               simp only [Option.getD_some]
               exact ⟨rfl, by rw [this.1]; exact this.2⟩)
-          have hc := concat_count ((f :: t).map (fun a => a.bonds.getD ⟨a.n, []⟩))
+          have hc := concat_count (xs.map (fun a => a.bonds.getD ⟨a.n, []⟩))
           rw [hcnt _ hw] at hc
           refine ⟨hc, ?_⟩
           rw [← hc]; exact hwf.2
@@ -642,13 +649,13 @@ theorem stackArrays_wf {xs : List Arr} {a' : Arr} (hw : ∀ a ∈ xs, WF a) (h :
   unfold stackArrays at h
   split at h
   · cases h
-  · rename_i f t
+  · rename_i f hhead
     split at h; · cases h
     split at h; · cases h
     split at h; · cases h
     rename_i hst hn _
     cases h
-    have hf := hw f (by simp)
+    have hf := hw f (head?_mem hhead)
     refine ⟨hf.cols, ?_, (fun hs => nomatch hs), ?_, hf.bonds⟩
     · intro c hc
       simp only [List.mem_map] at hc
